@@ -92,7 +92,7 @@ def materialise(plan, opt, rng, work, fmt="json"):
             objs[0]["name"] = "\ud800x"
         lookup = "-"
         data = None
-        if kind == "glob":
+        if kind == "glob" and not a.get("alias"):
             # a directory with two files, one object each, named by a pattern
             d = os.path.join(work, "g%d" % i)
             os.makedirs(d)
@@ -103,6 +103,8 @@ def materialise(plan, opt, rng, work, fmt="json"):
                 path_index[nm] = i
             contents[i] = (kind, objs)
             pat = os.path.join(d, rng.choice(["*.%s" % fmt, "?*.%s" % fmt, "*"]))
+            if first is None:
+                first = (kind, objs, "-", pat)
             if a["flag"] == "m":
                 argv += ["-m", a["model"], pat]
             else:
